@@ -815,3 +815,143 @@ pub fn gen_race(rng: &mut Rng) -> Program {
     }
     p
 }
+
+// ------------------------------------------------------------------------------------------
+// Arc / leak family (C10, C11)
+
+pub fn gen_arc(rng: &mut Rng, leaky: bool) -> Program {
+    let mut vs = ValueSrc::new();
+    let spawned = rng.range(1, 3);
+    let nt = spawned + 1;
+    let n_arcs = rng.range(1, 2);
+    let with_atomic = rng.chance(1, 2);
+    let with_track = leaky && rng.chance(1, 2);
+    let with_alloc = leaky && rng.chance(1, 3);
+    let with_chan = leaky && rng.chance(1, 4);
+    let mut p = Program {
+        atomics: if with_atomic { vec![0] } else { vec![] },
+        n_track: with_track as u8 * 2,
+        n_block: with_alloc as u8,
+        n_chan: with_chan as u8,
+        ..Default::default()
+    };
+    for _ in 0..n_arcs {
+        let mut owners = Vec::new();
+        for t in 1..nt {
+            if rng.chance(2, 3) {
+                owners.push(t as u8);
+            }
+        }
+        p.arcs.push(owners);
+    }
+    p.threads = vec![Vec::new(); nt];
+    let mut bodies: Vec<Vec<Op>> = vec![Vec::new(); nt];
+    for t in 0..nt {
+        let n = rng.range(1, 4);
+        let mut extra_handles = vec![0usize; n_arcs];
+        for _ in 0..n {
+            let r = rng.below(n_arcs) as u8;
+            let k = rng.below(if leaky { 16 } else { 12 });
+            let op = match k {
+                0 | 1 => {
+                    extra_handles[r as usize] += 1;
+                    Op::ArcClone { r }
+                }
+                2 | 3 => Op::ArcDrop { r },
+                4 | 5 => Op::ArcCount { r },
+                6 => Op::ArcGetMut { r },
+                7 => Op::ArcTryUnwrap { r },
+                8 => Op::ArcRawRoundTrip { r },
+                9 => {
+                    extra_handles[r as usize] += 1;
+                    Op::ArcIncStrong { r }
+                }
+                10 => Op::ArcDecStrong { r },
+                11 => {
+                    if with_atomic {
+                        if rng.chance(1, 2) {
+                            Op::Load { a: 0, o: MO::Sc }
+                        } else {
+                            Op::Store { a: 0, v: vs.constant(), o: MO::Sc }
+                        }
+                    } else {
+                        Op::ArcCount { r }
+                    }
+                }
+                12 => Op::ArcForget { r },
+                13 if with_track => {
+                    let k = rng.below(2) as u8;
+                    if rng.chance(1, 2) {
+                        Op::TrackNew { k }
+                    } else {
+                        Op::TrackDrop { k }
+                    }
+                }
+                14 if with_alloc => {
+                    if rng.chance(1, 2) {
+                        Op::Alloc { k: 0 }
+                    } else {
+                        Op::Dealloc { k: 0 }
+                    }
+                }
+                15 if with_chan => Op::Send { c: 0, v: vs.constant() },
+                _ => Op::ArcCount { r },
+            };
+            bodies[t].push(op);
+        }
+        // conditional release: only the winner of a CAS releases
+        if leaky && with_atomic && rng.chance(1, 3) {
+            bodies[t].push(Op::Cas { a: 0, e: 0, n: vs.constant(), so: MO::Sc, fo: MO::Sc });
+            let pc = (bodies[t].len() - 1) as u8;
+            let r = rng.below(n_arcs) as u8;
+            bodies[t].push(Op::If { pc, eq: 0, then: Box::new(Op::ArcDrop { r }) });
+        }
+        // release everything this thread may still hold (surplus drops are no-ops)
+        let skip_release = leaky && rng.chance(1, 4);
+        if !skip_release {
+            for r in 0..n_arcs {
+                let owned = t == 0 || p.arcs[r].contains(&(t as u8));
+                let n_drop = owned as usize + extra_handles[r];
+                for _ in 0..n_drop {
+                    bodies[t].push(Op::ArcDrop { r: r as u8 });
+                }
+            }
+        }
+    }
+    // balance track / alloc in the non-leaky tail of leaky programs sometimes
+    let spawn_n = nt - 1;
+    for t in 1..nt {
+        p.threads[0].push(Op::Spawn { t: t as u8 });
+    }
+    for op in bodies[0].iter_mut() {
+        if let Op::If { pc, .. } = op {
+            *pc += spawn_n as u8;
+        }
+    }
+    // main's own body runs between spawn and join or after the joins
+    let main_body = std::mem::take(&mut bodies[0]);
+    if rng.chance(1, 2) {
+        p.threads[0].extend(main_body);
+        for t in 1..nt {
+            p.threads[0].push(Op::Join { t: t as u8 });
+        }
+    } else {
+        let mut mb = main_body;
+        for op in mb.iter_mut() {
+            if let Op::If { pc, .. } = op {
+                *pc += spawn_n as u8;
+            }
+        }
+        for t in 1..nt {
+            p.threads[0].push(Op::Join { t: t as u8 });
+        }
+        p.threads[0].extend(mb);
+    }
+    if with_chan && rng.chance(1, 2) {
+        p.threads[0].push(Op::TryRecv { c: 0 });
+    }
+    for t in 1..nt {
+        p.threads[t] = std::mem::take(&mut bodies[t]);
+    }
+    p
+}
